@@ -250,6 +250,7 @@ def h_type(I, st, fv, args, kwargs, ctx):
     I.U.axioms.append((c == I.U.cls_const("type")) == (vm.ty(t) == vm.TAG["type"]))
     for nm in ("date", "datetime", "int", "bool", "float", "str", "tuple", "list", "dict"):
         I.U.axioms.append((c == I.U.cls_const(nm)) == (vm.ty(t) == vm.TAG[nm]))
+    I.U.axioms.append((c == I.U.cls_const("NoneType")) == (t == I.U.NONE))
     return [(st, Sym(c))]
 
 
